@@ -138,6 +138,22 @@ def step (st : St) (toks : List String) : St × List String :=
   | ["toobig", len] => match len.toNat? with
     | some len => (st, [s!"toobig={tooBigLen len}"])
     | none => (st, ["bad-op"])
+  | ["putprobe", len] => match len.toNat? with
+    -- a body of `len` bytes on an empty shard: does PutBucket accept it, and is it re-read after a restart?
+    -- (the two size checks of the model: `tooBigLen` of the writer, `badChunk` of the reader, on a file of exactly 20+len bytes)
+    | some len =>
+      let acc := !tooBigLen len
+      let rd := !badChunk { magic := magicGood, time := 7, size := len, crc := 0 } (headerSize + len) 0
+      (st, [s!"putprobe accept={acc} reread={acc && rd}"])
+    | none => (st, ["bad-op"])
+  | ["readprobe", len] => match len.toNat? with
+    -- a file whose only header declares a chunk of `len` bytes and that is exactly 20+len bytes long: does the tail reader take it?
+    | some len =>
+      (st, [s!"readprobe readable={!badChunk { magic := magicGood, time := 7, size := len, crc := 0 } (headerSize + len) 0}"])
+    | none => (st, ["bad-op"])
+  | ["vanish", sh, i] => match i.toNat? with
+    | some i => withDisk st sh (fun s => (vanish s i, "vanish"))
+    | none => (st, ["bad-op"])
   | _ => (st, ["bad-op"])
 
 def main : IO Unit :=
